@@ -4,7 +4,7 @@
    The model (Pbf/Model.v) is a hand transcription of /repo/osmpbf/decode_data.go at
    message-tree level, tied to the implementation by correspondence (harness/cmd/c08). *)
 From Coq Require Import ZArith List Bool.
-From Verif Require Import Base.Int64 Pbf.Tree Pbf.Model Pbf.Spec Pbf.ProofsIndep Pbf.ProofsFilter Pbf.ProofsDecode Pbf.ProofsAll.
+From Verif Require Import Base.Int64 Pbf.Tree Pbf.Model Pbf.Spec Pbf.ProofsIndep Pbf.ProofsFilter Pbf.ProofsDecode Pbf.ProofsDense Pbf.ProofsAll.
 Import ListNotations.
 Open Scope Z_scope.
 
@@ -32,13 +32,13 @@ Theorem C08_reset_is_fresh : (forall w, reset_way w = way0) /\ (forall r, reset_
 Proof. split; reflexivity. Qed.
 Print Assumptions C08_reset_is_fresh.
 
-(* 4. on encoded blocks (ways/relations/changesets; see C01 for the dense-node gap) the configured
-      scan is exactly the kept subsequence of the elements the block encodes *)
-Theorem C08_filtered_scan_of_encoding_partial : forall b,
-  valid_block b = true -> no_dense b = true ->
+(* 4. on encoded valid blocks the configured scan is exactly the kept subsequence of the elements
+      the block encodes, for every configuration and every incoming decoder state *)
+Theorem C08_filtered_scan_of_encoding : forall b,
+  valid_block b = true ->
   forall c st, scan_result c st (encode_block b) = Ok (filter (keeps c) (elements b)).
-Proof. exact decode_encode_filtered_nodense. Qed.
-Print Assumptions C08_filtered_scan_of_encoding_partial.
+Proof. exact decode_encode_filtered. Qed.
+Print Assumptions C08_filtered_scan_of_encoding.
 
 (* non-vacuity: a block with one way and one relation; skipping ways keeps the relation only *)
 Example C08_witness :
